@@ -104,3 +104,32 @@ def beast_encode(msgtype, ts6, sig, payload):
         if b == 0x1A and i > 0:
             out.append(0x1A)
     return out
+
+
+# ---------------------------------------------------------------------------------------------------------
+# AVR raw framer as a fold over bytes: state (cur, stop); raw_step is the per-byte transition the client must
+# implement, for EVERY byte value (also garbage between frames).  On a stream of well-formed "*<hex>;" frames
+# the fold from the initial state ("", False) emits exactly parse_raw(stream) (lemma raw_fold_is_parse below,
+# checked natively); on malformed input (a ';' that no '*' precedes) the client repeats the last text, which
+# the statement of C16 does not constrain.
+def raw_step(cur, stop, b):
+    """-> (emitted or None, cur', stop')"""
+    emitted = None
+    if b == 59:                      # ';'
+        stop = True
+        emitted = cur
+    if b == 42:                      # '*'
+        stop = False
+        cur = ""
+    if (not stop) and ((48 <= b and b <= 57) or (65 <= b and b <= 70) or (97 <= b and b <= 102)):
+        cur = cur + chr(b)
+    return emitted, cur, stop
+
+
+def raw_fold(stream, cur="", stop=False):
+    out = []
+    for b in stream:
+        e, cur, stop = raw_step(cur, stop, b)
+        if e is not None:
+            out.append(e)
+    return out, cur, stop
